@@ -5,6 +5,7 @@ What is visible in the shape of the code and necessary for it on every dataset i
 import re
 from .core import RuleResult
 from .facts import fn_key, fn_loc, fn_file, walk, strip, peel_refs, pat_bindings, Render
+from .facts import lit_float, lit_number
 
 LEVEL = ("Static analysis of linfa-elasticnet and linfa-linear's OLS. Decided, for all data: (intercept) the intercept an "
          "elastic-net fit publishes depends on the records - at the optimum it is mean(y) - mean(x).w, so an intercept "
@@ -74,7 +75,7 @@ def _l1_terms(c, e, l1_local):
     for z in walk(e):
         if z.get("k") == "Binary" and z["op"] == "-" and peel_refs(z["r"]).get("local") == l1_local:
             l = peel_refs(z["l"])
-            if (l.get("k") == "Call" and (c.dfn(strip(l["f"]).get("def")) or {}).get("name") == "one") or (l.get("k") == "Lit" and str(l.get("v")).rstrip("0.f3264_") in ("1",)):
+            if (l.get("k") == "Call" and (c.dfn(strip(l["f"]).get("def")) or {}).get("name") == "one") or (l.get("k") == "Lit" and lit_float(l.get("v")) == 1.0):
                 one_minus = True
     return has, one_minus
 
@@ -614,7 +615,9 @@ def rule_blocksoft(ctx):
 
 def rules(tier):
     from . import carry, precision, layout, c04, zeroskip, axisrole
-    return [rule_gap, rule_blocksoft, zeroskip.make_rule("R-C11-zeroskip", lambda f: f["d"]["krate"] == "linfa_elasticnet" and f["d"]["name"] in ("coordinate_descent", "block_coordinate_descent"), ("r",), 4, "the residual in the coordinate descents"),
+    from . import inplace
+    return [inplace.make_rule("R-C11-overwrite", lambda f: f["d"]["krate"] in ("linfa_elasticnet", "linfa_linear"), 3, "the linear models (elastic net, multi-task elastic net, OLS, isotonic, GLM)"),
+            rule_gap, rule_blocksoft, zeroskip.make_rule("R-C11-zeroskip", lambda f: f["d"]["krate"] == "linfa_elasticnet" and f["d"]["name"] in ("coordinate_descent", "block_coordinate_descent"), ("r",), 4, "the residual in the coordinate descents"),
             zeroskip.make_exact_rule("R-C11-scale", lambda f: f["d"]["krate"] == "linfa_elasticnet" and f["d"]["name"] in ("coordinate_descent", "block_coordinate_descent"), ("r",), 6, "the residual"),
             rule_sweep, axisrole.make_rule("R-C11-axes", "linfa_elasticnet", {"duality_gap_mtl": {"x": ("samples", "features"), "y": ("samples", "tasks"), "w": ("features", "tasks"), "r": ("samples", "tasks")},
                                                                                "duality_gap": {"x": ("samples", "features"), "y": ("samples",), "w": ("features",), "r": ("samples",)}}, 2, "the duality gaps of linfa-elasticnet"),
